@@ -164,6 +164,20 @@ def materialise(scn, base):
         with open(os.path.join(root, ".hidden.txt"), "w") as f:
             f.write("foo hidden needle\n")
         files = files + [(".hidden.txt", "tiny")]
+    if scn.get("links"):
+        # a symlink to a directory that a directory-only ignore rule excludes, searched with -L: both walkers must
+        # apply the rule to what the link points to
+        os.makedirs(os.path.join(root, "real0"), exist_ok=True)
+        extra = []
+        for i in range(3):
+            rel = "real0/g%d.txt" % i
+            with open(os.path.join(root, rel), "wb") as f:
+                f.write(file_bytes(rng, "tiny"))
+            extra.append((rel, "tiny"))
+        os.symlink("real0", os.path.join(root, "lnk0"))
+        with open(os.path.join(root, ".ignore"), "a") as f:
+            f.write("lnk0/\n")
+        files = files + extra
     pre = os.path.join(base, "pre.sh")
     with open(pre, "wb") as f:
         f.write(PRE_SCRIPT)
@@ -175,6 +189,8 @@ def base_args(scn, pre):
     a = ["--color", "never", "--no-config"] + MODES[scn["mode"]]
     if scn["pre"]:
         a += ["--pre", pre, "--pre-glob", "*.slow"]
+    if scn.get("links"):
+        a += ["-L"]
     if scn["mode"] != "files":
         a += ["-e", PATTERNS[scn["pattern"]]]
     return a
@@ -203,7 +219,7 @@ def make_scenarios(tier, seed):
         scns.append({
             "gid": i, "seed": rng.randrange(1 << 30), "tier": tier, "mode": mode, "pattern": pat,
             "dense": (i % 3 == 0 and mode != "json") or (tier == "quick" and pat == "many" and mode in ("heading", "context")),
-            "pre": i % 2 == 0, "ignores": i % 4 == 1,
+            "pre": i % 2 == 0, "ignores": i % 4 == 1, "links": i % 3 == 2,
             "threads": threads,
             # CPU sets: None = unrestricted, else number of CPUs the run is confined to
             "cpus": [rng.choice([None, None, 1, 2, 3]) for _ in threads],
